@@ -259,8 +259,11 @@ def gen_mesh(o):
     txt = [ast.unparse(s) for s in body]
     if len(body) != 4 or txt[1] != "raw_mesh = RawMeshData(mesh)" or txt[3] != "write_by_extension(raw_mesh, filename)":
         T.fail(rel, fn, "unexpected shape of save")
-    if txt[0] != "if isinstance(mesh, VolumeMesh) and '.geogram' in filename:\n    mesh.connectivity._compute_adjacent_cell()":
+    mg = re.fullmatch(r"if isinstance\(mesh, VolumeMesh\) and '\.geogram' in filename and all\(\(len\(c\) == (\d+) for c in mesh\.cells\)\):\n    mesh\.connectivity\._compute_adjacent_cell\(\)", txt[0])
+    if not mg:
         T.fail(rel, body[0], "unexpected geogram prologue of save")
+    o.d("(* save(): the cell adjacency is computed for a VolumeMesh saved to geogram whose cells all have this many vertices *)")
+    o.d("Definition save_adjacency_arity : Z := %s." % mg.group(1))
     ign = body[2]
     if not (isinstance(ign, ast.If) and ast.unparse(ign.test) == "ignore_elements is not None" and not ign.orelse):
         T.fail(rel, ign, "expected `if ignore_elements is not None:`")
@@ -432,24 +435,26 @@ def gen_obj(o):
             seen["vt"] = kw
         elif b == ["faces.append([parse_vertex(vstr) for vstr in toks[1:]])"]:
             seen["f"] = kw
-        elif len(b) == 3 and b[1] == "e = keyify(v1, v2)" and b[2] == "obj.edges.append(e)":
-            asg = body[0]
+        elif len(b) == 1 and isinstance(body[0], ast.For) and b[0].endswith("e = keyify(v1, v2)\n    obj.edges.append(e)"):
+            lp = body[0]
+            if not (isinstance(lp.target, ast.Name) and ast.unparse(lp.iter) == "range(1, len(%s) - 1)" % tk and len(lp.body) == 3):
+                T.fail(rel, lp, "polyline loop is not `for i in range(1, len(toks)-1)`")
+            iv = lp.target.id
+            asg = lp.body[0]
             if not (isinstance(asg, ast.Assign) and ast.unparse(asg.targets[0]) == "(v1, v2)" and isinstance(asg.value, ast.Tuple)
                     and len(asg.value.elts) == 2):
                 T.fail(rel, asg, "expected v1,v2 = ..., ...")
-            pos = []
             forms = set()
+            offs = []
             for e in asg.value.elts:
-                subs = [s for s in walk_type(e, ast.Subscript) if ast.unparse(s.value) == tk]
+                subs = [x for x in walk_type(e, ast.Subscript) if ast.unparse(x.value) == tk]
                 if len(subs) != 1:
-                    T.fail(rel, e, "expected one toks[k]")
-                k = subscript_const(subs[0], tk, rel)
-                pos.append(k)
-                forms.add(zexpr(e, {"int(%s[%d])" % (tk, k): "x"}, rel))
-            if len(forms) != 1:
-                T.fail(rel, asg, "the two edge indices are converted differently")
+                    T.fail(rel, e, "expected one toks[..]")
+                offs.append(ast.unparse(subs[0].slice))
+                forms.add(zexpr(e, {"int(%s)" % ast.unparse(subs[0]): "x"}, rel))
+            if offs != [iv, "%s + 1" % iv] or len(forms) != 1:
+                T.fail(rel, asg, "polyline segment is not (toks[i], toks[i+1]) converted alike")
             seen["l"] = kw
-            o.d("Definition obj_imp_edge_pos : list Z := %s." % zlist(pos))
             o.d("Definition obj_imp_edge (x : Z) : Z := %s." % forms.pop())
         else:
             T.fail(rel, test, "unrecognised branch for keyword %r" % kw)
@@ -513,18 +518,27 @@ def gen_off(o):
     o.src("parse_off_data", src, im)
     b = T.body_nodoc(im)
     t = [ast.unparse(s) for s in b]
-    if t[1:3] != ["data = [x.strip().split() for x in data]", "data = deque([x for x in data if x])"] or t[3] != "header = data.popleft()[0]":
+    if t[1:3] != ["data = [x.split('#')[0].strip().split() for x in data]", "data = deque([x for x in data if x])"] or t[3] != "header = data.popleft()":
         T.fail(rel, im, "unexpected prologue of parse_off_data")
-    if not (isinstance(b[4], ast.If) and isinstance(b[4].test, ast.Compare) and ast.unparse(b[4].test.left) == "header"
+    if not (isinstance(b[4], ast.If) and isinstance(b[4].test, ast.Compare) and ast.unparse(b[4].test.left) == "header[0]"
             and isinstance(b[4].test.ops[0], ast.NotEq) and str_const(b[4].test.comparators[0]) == hdr[:-1]
             and isinstance(b[4].body[0], ast.Raise)):
         T.fail(rel, b[4], "header test does not compare with the header written by export_off")
-    cnt = b[5]
+    cl = b[5]
+    if not (isinstance(cl, ast.Assign) and ast.unparse(cl.targets[0]) == "counts" and isinstance(cl.value, ast.IfExp)
+            and ast.unparse(cl.value.orelse) == "data.popleft()"):
+        T.fail(rel, cl, "expected counts = header[k:] if <test> else data.popleft()")
+    lo, hi = slice_bounds(cl.value.body, "header", {}, rel)
+    if hi is not None:
+        T.fail(rel, cl, "expected an open slice header[k:]")
+    o.d("Definition off_imp_counts_inline (n : Z) : bool := %s." % bexpr(cl.value.test, {"len(header)": "n"}, {}, rel))
+    o.d("Definition off_imp_counts_inline_from : Z := %s." % lo)
+    cnt = b[6]
     if not (isinstance(cnt, ast.Assign) and isinstance(cnt.targets[0], ast.Tuple)
-            and ast.unparse(cnt.value) == "(int(u) for u in data.popleft())"):
-        T.fail(rel, cnt, "expected nv,nf,ne = (int(u) for u in data.popleft())")
+            and ast.unparse(cnt.value) == "(int(u) for u in counts)"):
+        T.fail(rel, cnt, "expected nv,nf,ne = (int(u) for u in counts)")
     names = [e.id for e in cnt.targets[0].elts]
-    vloop, floop = b[6], b[8]
+    vloop, floop = b[7], b[9]
     if not (isinstance(vloop, ast.For) and re.fullmatch(r"range\((\w+)\)", ast.unparse(vloop.iter))
             and [ast.unparse(s) for s in vloop.body] == ["vertex = [float(u) for u in data.popleft()]", "output.vertices.append(Vec(vertex))"]):
         T.fail(rel, vloop, "unexpected vertex loop")
@@ -548,6 +562,8 @@ def gen_off(o):
             and isinstance(b_f[0].value, ast.ListComp) and ast.unparse(b_f[0].value.elt) == "int(u)"):
         T.fail(rel, fb[2], "unexpected face branch")
     lo, hi = slice_bounds(b_f[0].value.generators[0].iter, "simplex", {"nvi": "nvi"}, rel)
+    if hi is None:
+        T.fail(rel, b_f[0], "the face indices are not delimited by the declared vertex count (open slice)")
     o.d("Definition off_imp_is_face (nvi : Z) : bool := %s." % bexpr(t_f, {"nvi": "nvi"}, {}, rel))
     o.d("Definition off_imp_face_lo : Z := %s." % lo)
     o.d("Definition off_imp_face_hi (nvi : Z) : Z := %s." % hi)
@@ -953,7 +969,7 @@ def gen_geogram(o):
                 heads.append((c.lineno, c.col_offset, tx))
     heads.sort()
     roles = ["head", "atts_V", "attr_point", "atts_E", "attr_edge_vertex", "atts_F", "attr_facet_ptr", "atts_FC", "attr_fc_vertex",
-             "attr_fc_adj", "atts_C", "atts_CC", "attr_cc_vertex", "atts_CF", "attr_cf_adj"]
+             "attr_fc_adj", "atts_C", "attr_cell_ptr", "atts_CC", "attr_cc_vertex", "atts_CF", "attr_cf_adj"]
     if len(heads) != len(roles):
         T.fail(rel, ex, "expected %d chunk headers in export_geogram_ascii, found %d" % (len(roles), len(heads)))
     for role, (_, _, tx) in zip(roles, heads):
@@ -994,10 +1010,16 @@ def gen_geogram(o):
     ext = ast.unparse(ex)
     for needle in ("if any((len(face) != 3 for face in mesh.faces)):", "ptr += len(face)", "for c in mesh.face_corners:\n                f.write(f'{c}\\n')",
                    "f.write(f'{edge[0]}\\n{edge[1]}\\n')", "f.write('{}\\n{}\\n{}\\n'.format(*mesh.vertices[i]))",
-                   "f.write(f'{cell_adj[iC, iF]}\\n')", "for iF in range(len(cell)):", "n_cell_faces = sum([len(c) for c in mesh.cells])",
+                   "f.write(f'{cell_adj[iC, iF]}\\n')", "for iF in range(len(cell)):", "if any((len(cell) != 4 for cell in mesh.cells)):", "ptr += len(cell)",
+                   "if mesh.cell_faces.has_attribute('adjacent_cell'):",
                    "n_corners = sum([len(cell) for cell in mesh.cells])", "for cell in mesh.cells:\n                for x in cell:\n                    f.write(f'{x}\\n')"):
         if needle not in ext:
             T.fail(rel, ex, "export_geogram_ascii: expected statement not found: %r" % needle)
+    mcf = re.findall(r"n_cell_faces = sum\(\[(\d+) if len\(c\) == (\d+) else (\d+) for c in mesh\.cells\]\)", ext)
+    if len(mcf) != 1:
+        T.fail(rel, ex, "number of cell facets not found")
+    o.d("(* facets of a cell with n vertices, as counted for the cell_facets attribute set *)")
+    o.d("Definition geo_exp_cell_facets (n : Z) : Z := if n =? %s then %s else %s." % (mcf[0][1], mcf[0][0], mcf[0][2]))
     # import
     im = T.find_def(tree, "import_geogram_ascii", rel)
     o.src("import_geogram_ascii", src, im)
